@@ -416,6 +416,23 @@ PlanEndEv ==
     /\ UNCHANGED <<raw, abs, initRaw, steps, mode, paidVal, paidDisc, prev, grp, ndec, hist>>
     /\ l' = l + 1
 
+\* ------------------------------------------------------------- episode end
+\* C20: a recorded goal-reaching episode of the real environment: its total reward (summed by the harness
+\* from the rewards step returned) and the number of hosts the decoded final state holds, against what the
+\* environment advertises
+EpisodeEndEv ==
+    /\ l <= N /\ Ev.ev = "episode_end"
+    /\ LET ev == Ev  st == abs[ev.env] IN
+       Report(Failed(<< <<"C20", "goal_total_within_advertised_bound",
+                          (ev.term /\ Goal(st)) => ev.total <= ev.ub>>,
+                        <<"C20", "advertised_hops_within_minimum",
+                          (ev.term /\ Goal(st) /\ ev.fwfree) =>
+                             Cardinality({h \in Hosts : st[h].comp}) >= ev.hops>>,
+                        <<"DRIFT", "advertised_bound_formula",
+                          ev.ub = SumVal(Sens) + SumDVal(Hosts) - 1000 * ev.hops>> >>), ev.i)
+    /\ UNCHANGED <<raw, abs, initRaw, steps, mode, paidVal, paidDisc, prev, grp, ndec, hist>>
+    /\ l' = l + 1
+
 \* --------------------------------------------------------------- malformed
 MalformedEv ==
     /\ l <= N /\ Malformed(Ev)
@@ -448,12 +465,12 @@ RaisedEv ==
 \* an event kind this monitor has no clauses for (validated by another module)
 OtherEv ==
     /\ l <= N /\ Ev.ev \notin {"create", "reset", "step", "genstep", "goal", "raised", "actions", "decode",
-                              "decode_done", "mask", "readable", "plan_end"}
+                              "decode_done", "mask", "readable", "plan_end", "episode_end"}
     /\ UNCHANGED <<raw, abs, initRaw, steps, mode, paidVal, paidDisc, prev, grp, ndec, hist>>
     /\ l' = l + 1
 
 Next == Create \/ ResetEv \/ StepEv \/ GoalEv \/ RaisedEv \/ ActionsEv \/ DecodeEv \/ DecodeDoneEv
-        \/ MaskEv \/ ReadableEv \/ PlanEndEv \/ MalformedEv \/ OtherEv
+        \/ MaskEv \/ ReadableEv \/ PlanEndEv \/ EpisodeEndEv \/ MalformedEv \/ OtherEv
 
 Spec == Init /\ [][Next]_vars
 
